@@ -1,8 +1,23 @@
-"""C17 Encoding independence: totality only (DESIGN.md section 3, C17)"""
-from . import mir, panics, scopes
+"""C17 Encoding independence (DESIGN.md section 3, C17)
+
+R17-panic   panic obligations in loader::load / read_data / decode_raw_bytes (totality)
+R17-decode  decision table of the decoder: which conversion (UTF-8, UTF-16 LE/BE, UTF-32 LE/BE, Latin-1) is tried under which
+            byte-order-mark / zero-byte heuristics, what is stripped, what happens when a conversion fails (reviewed table)
+"""
+import re
+from . import mir, panics, scopes, sym, diag
+
+LOADER_CALLS = re.compile(r"(from_utf8|from_utf16|from_utf8_lossy|from_utf8_unchecked|char::from_u32|from_u32|from_le_bytes|from_be_bytes|strip_prefix|starts_with|String::push|String::push_str|Vec(<.*>)?::push|loader::\w+|fs::File::open|Read>?::read_to_end|read_to_end|read_to_string|fs::read|metadata|chunks|chunks_exact|collect|decode_utf16|is_char_boundary)$")
+
+
+def loader_table(prog):
+    A = sym.Analyzer(prog, opaque=[r"loader::.*"])
+    fids = sorted(f for f, b in prog.bodies.items() if b.file == "a2lfile/src/loader.rs" and b.kind != "Closure" and not f.startswith("loader::test"))
+    return diag.module_table(prog, A, fids, LOADER_CALLS, adts=("A2lError",))
 
 
 def run(chk):
     prog = mir.prog()
     panics.run_scope(chk, "R17-panic", prog, scopes.decode_scope(prog), what="panic obligations in loader::load / read_data / decode_raw_bytes", floor=30)
-    chk.assumptions += ["not decided: that each encoding yields the same model (value-level decoding)"]
+    diag.compare(chk, "R17-decode", "loader", loader_table(prog), "decisions of the file loader / decoder (conversion calls, stripped prefixes, scan steps) with their control predicates, compared with the reviewed table", floor=20)
+    chk.assumptions += ["not decided: that each encoding yields the same model (value-level decoding); R17-decode fixes which conversion is chosen when"]
